@@ -128,7 +128,7 @@ pub fn plan(prop: &str, tier: &str) -> Option<Plan> {
             b.add("rc/reader-vs-root-reclaim", all, &[&[("age", 0)], &[("age", 4)]], bq);
             b.add("rc/reader-second-path", all, &[&[("age", 4), ("pre", 2)]], if quick { 2 } else { 3 });
             b.add("rc/reader-second-path", if quick { few } else { all }, &[&[("age", 0), ("pre", 2)], &[("age", 4), ("pre", 3)]], if quick { 2 } else { 3 });
-            b.add_sliced("rc/stalled-dropper", if quick { &[0i64, 11][..] } else { &[0i64, 1, 2, 5, 11, 13, 14, 15, 65535][..] }, &[&[("k", 0)]], 2, if quick { 8 } else { 4 });
+            b.add_sliced("rc/stalled-dropper", if quick { &[0i64][..] } else { &[0i64, 1, 2, 5, 11, 13, 14, 15, 65535][..] }, &[&[("k", 0)]], 2, if quick { 8 } else { 4 });
             // six threads: the dropper is pinned, its stamp one epoch behind, one more advance follows
             if !quick {
                 b.add_sliced("rc/stalled-dropper", few, &[&[("k", 0), ("split", 1)]], 2, 16);
@@ -162,11 +162,10 @@ pub fn plan(prop: &str, tier: &str) -> Option<Plan> {
                 u.bound = 2;
             }
             {
-                // a reader's whole critical section against a mutator, both generated (quick: one
-                // of the two initial states - the other went to the thorough tier when the
-                // hand-over scenario below came in)
+                // a reader's whole critical section against a mutator, both generated (thorough
+                // tier only since the hand-over scenario below came into the quick tier)
                 let from = b.units.len();
-                for init in (if quick { 1..2 } else { 0..2 }) {
+                for init in (if quick { 2..2 } else { 0..2 }) {
                     b.add_cases("gen/reader", e(0).set("k1", 2).set("k2", 1).set("init", init).set("pre", 2), crate::scen::gen::reader_cases(2, 1), 16);
                 }
                 b.units[from..].iter_mut().for_each(|u| u.bound = if quick { 1 } else { 2 });
